@@ -17,16 +17,23 @@ var Permute func(loopSeq int, n int) []int
 var loopSeq int
 
 // ResetSeq restarts the loop counter (harness: before each run).
+//
+//go:norace
 func ResetSeq() { loopSeq = 0 }
 
 // Loops returns how many instrumented loops ran since ResetSeq, for the harness to size its enumeration.
+//
+//go:norace
 func Loops() int { return loopSeq }
 
 var sizes []int
 
 // Sizes returns the number of keys of every instrumented loop executed since ResetSeq.
+//
+//go:norace
 func Sizes() []int { return sizes }
 
+//go:norace
 func Keys[K comparable, V any](m map[K]V) []K {
 	keys := make([]K, 0, len(m))
 	for k := range m {
@@ -58,6 +65,7 @@ func Keys[K comparable, V any](m map[K]V) []K {
 	return out
 }
 
+//go:norace
 func fact(n int) int {
 	f := 1
 	for i := 2; i <= n; i++ {
@@ -67,6 +75,8 @@ func fact(n int) int {
 }
 
 // nthPerm returns the k-th permutation of 0..n-1 in lexicographic order.
+//
+//go:norace
 func nthPerm(n, k int) []int {
 	items := make([]int, n)
 	for i := range items {
@@ -84,7 +94,11 @@ func nthPerm(n, k int) []int {
 }
 
 // NthPerm is exported for harnesses.
+//
+//go:norace
 func NthPerm(n, k int) []int { return nthPerm(n, k) }
 
 // Fact is exported for harnesses.
+//
+//go:norace
 func Fact(n int) int { return fact(n) }
